@@ -53,3 +53,21 @@ Example ex_heap :
           Some (MkHeap [10; 1; 20; 2; 2; 4; 2]%Z
                        [MkObj 0 1; MkObj 2 3; MkObj 0 4; MkObj 2 5; MkObj 0 6], [2; 3; 4]%nat).
 Proof. split; [repeat constructor|reflexivity]. Qed.
+
+(* shared references: object 0 twice in the input, objects 0 and 1 share the translation array 1.  Every position gets
+   its own copy, each scaled ONCE (2 * 1 = 2), the shared array 1 keeps its value. *)
+Example ex_heap_shared :
+  let h := MkHeap [10; 1; 20]%Z [MkObj 0 1; MkObj 2 1] in
+  wf h /\ scale_system_h (Z.mul 2) h [0; 0; 1]%nat =
+          Some (MkHeap [10; 1; 20; 2; 2; 2]%Z [MkObj 0 1; MkObj 2 1; MkObj 0 3; MkObj 0 4; MkObj 2 5], [2; 3; 4]%nat).
+Proof. split; [repeat constructor|reflexivity]. Qed.
+
+(* what a memoising deep copy does instead (copy.deepcopy of the whole list): ONE copy for the repeated object, visited
+   twice by the scaling loop, so its translation is multiplied by the factor twice (2 * 2 * 1 = 4): not uniform. *)
+Example ex_memoised_copy_scales_twice :
+  let h := MkHeap [10; 1]%Z [MkObj 0 1] in
+  match copy_obj h 0 with
+  | Some (h1, c) => option_map (fun h2 => deref h2 c) (scale_all (Z.mul 2) h1 [c; c])
+  | None => None
+  end = Some (Some (10, 4)%Z).
+Proof. reflexivity. Qed.
